@@ -1073,7 +1073,9 @@ def g3e(cx):
     for nd in (1, 2):
         for itemkind in ("static", "dynamic"):
             dims = [2, 3][:nd]
-            bads = [(-1,), (2,), (7,)] if nd == 1 else [(-1, 0), (0, -1), (2, 0), (0, 3), (1, 9)]
+            # (the last ones have MORE entries than the array has axes: a position that does not exist, even though
+            # every leading component is in range -- PF59)
+            bads = [(-1,), (2,), (7,), (1, 7), (0, 0)] if nd == 1 else [(-1, 0), (0, -1), (2, 0), (0, 3), (1, 9), (1, 2, 0), (0, 0, 5)]
             goods = [(0,), (1,)] if nd == 1 else [(0, 0), (1, 2)]
             for acc in ("__getitem__", "__setitem__", "_get_offset"):
                 for idx, expect in [(b, "refuse") for b in bads] + [(g, "accept") for g in goods]:
@@ -1092,7 +1094,7 @@ def g3e(cx):
                         h = I.call(I.getattr(cls, "_from_buffer"), [W.buffer, Sym(OFF)], {})
                         n0 = len(I.effects)
                         out["n0"] = n0
-                        key = idx[0] if nd == 1 else tuple(idx)
+                        key = idx[0] if len(idx) == 1 else tuple(idx)
                         if acc == "__setitem__":
                             I.call(I.getattr(h, acc), [key, Opaque("newval")], {})
                         else:
@@ -1106,7 +1108,7 @@ def g3e(cx):
                         accepted = [r for r in res if r["exc"] is None or r["exc"].etype != "IndexError"]
                         wrote = any(any(e.kind in ("child_write", "write", "write_array", "view_update") for e in r["effects"][out.get("n0", 0):]) for r in res)
                         cx.check(not accepted and not wrote, None, construct=label, detail="refused with IndexError before anything is read or written",
-                                 bad_detail=("an out-of-range index is accepted" + (" (negative indices wrap around silently in the cached offset table)" if idx and min(idx) < 0 else "") if accepted else "something is written before the refusal"), anchor=anchor, sub="refuse")
+                                 bad_detail=("an out-of-range index is accepted" + (" (negative indices wrap around silently in the cached offset table)" if idx and min(idx) < 0 else " (more entries than axes: the surplus is ignored silently)" if len(idx) > nd else "") if accepted else "something is written before the refusal"), anchor=anchor, sub="refuse")
                     else:
                         okp = [r for r in res if r["exc"] is None]
                         cx.check(bool(okp), None, construct=label, detail="in-range index accepted", bad_detail=f"an in-range index is refused: {res[0]['exc'].etype if res[0]['exc'] else ''}", anchor=anchor, sub="accept")
